@@ -11,13 +11,15 @@ use vcore::{prop_search, Outcome, Run, Search};
 use wire::*;
 use wtransport::Connection;
 
-const RULE: &str = "case = runtime flavour x role of the wtransport endpoint x an ordered script of 1..6 stalled streams (uni/bidi; stall position: no byte = implicit open, partial preamble, complete preamble then silence, data that the application accepts but never reads) interleaved with 1..8 healthy streams (preamble + tagged payload + FIN) x 0..3 datagrams x final clean close (close capsule or QUIC application close with generated code/reason), sent by the raw peer; plus a public-API variant (wtransport<->wtransport, an OpeningBiStream/OpeningUniStream held un-awaited). Oracle: an application that keeps accepting receives every healthy stream with its bytes, at least one datagram, and finally the exact close value, each within the bound. Non-trivial: >= 1 stalled stream opened before >= 1 healthy stream of the same kind; distinct = distinct case";
+const RULE: &str = "case = runtime flavour x role of the wtransport endpoint x an ordered script of 1..6 stalled streams (uni/bidi; stall position: no byte = implicit open, partial preamble, complete preamble then silence, data that the application accepts but never reads, a complete GREASE frame then silence / GREASE frame + partial preamble on a bidi stream, the type varint without the session id on a uni stream) interleaved with 1..8 healthy streams (preamble + tagged payload + FIN) x 0..3 datagrams x final clean close (close capsule or QUIC application close with generated code/reason sent by the raw peer, or Connection::close(code, reason) by the application, or the application dropping every handle and stream it holds); plus a public-API variant (wtransport<->wtransport, an OpeningBiStream/OpeningUniStream held un-awaited). Oracle: an application that keeps accepting receives every healthy stream with its bytes, at least one datagram, and finally the exact close value, each within the bound; after a local close the peer sees exactly (code, reason), after dropping everything the peer sees the connection closed within the bound. Non-trivial: >= 1 stalled stream opened before >= 1 healthy stream of the same kind; distinct = distinct case";
 
 #[derive(Clone, Debug, Serialize, Deserialize)]
 pub struct Item {
     pub stalled: bool,
     pub bidi: bool,
-    /// stall position: 0 no byte, 1 partial preamble, 2 complete preamble, 3 unread data
+    /// stall position: 0 no byte, 1 partial preamble, 2 complete preamble, 3 unread data,
+    /// 4 a complete GREASE frame (bidi) / the type varint without the session id (uni) then silence,
+    /// 5 a GREASE frame followed by a partial preamble (bidi) / as 4 (uni)
     pub pos: u8,
 }
 
@@ -39,6 +41,11 @@ pub struct Case {
     /// transport configuration) instead of a custom transport
     #[serde(default)]
     pub default_config: bool,
+    /// how the session ends (raw-peer script without relay): 0 by the peer (capsule or QUIC close,
+    /// see `close_capsule`), 1 the application calls `Connection::close(code, reason)`, 2 the
+    /// application drops every handle and stream it holds
+    #[serde(default)]
+    pub ending: u8,
 }
 
 pub fn case_strategy() -> impl Strategy<Value = Case> {
@@ -46,15 +53,15 @@ pub fn case_strategy() -> impl Strategy<Value = Case> {
         0u8..3,
         any::<bool>(),
         prop_oneof![4 => Just(0u8), 1 => Just(1u8)],
-        proptest::collection::vec((prop_oneof![Just(true), Just(false)], any::<bool>(), 0u8..4).prop_map(|(stalled, bidi, pos)| Item { stalled, bidi, pos }), 2..12),
+        proptest::collection::vec((prop_oneof![Just(true), Just(false)], any::<bool>(), 0u8..6).prop_map(|(stalled, bidi, pos)| Item { stalled, bidi, pos }), 2..12),
         0u8..4,
         any::<bool>(),
         prop_oneof![Just(0u32), Just(1), any::<u32>()],
         "[a-zA-Z0-9 ]{0,24}",
         prop_oneof![3 => Just(0u8), 1 => Just(1u8), 1 => Just(2u8)],
-        any::<bool>(),
+        (any::<bool>(), prop_oneof![3 => Just(0u8), 1 => Just(1u8), 2 => Just(2u8)]),
     )
-        .prop_map(|(flavor, wt_is_server, variant, mut items, datagrams, close_capsule, code, reason, relay, default_config)| {
+        .prop_map(|(flavor, wt_is_server, variant, mut items, datagrams, close_capsule, code, reason, relay, (default_config, ending))| {
             // at least one healthy and one stalled item
             if !items.iter().any(|i| !i.stalled) {
                 items.push(Item { stalled: false, bidi: items[0].bidi, pos: 0 });
@@ -62,7 +69,7 @@ pub fn case_strategy() -> impl Strategy<Value = Case> {
             if !items.iter().any(|i| i.stalled) {
                 items.insert(0, Item { stalled: true, bidi: items[0].bidi, pos: 0 });
             }
-            Case { flavor, wt_is_server, variant, items, datagrams, close_capsule, code, reason, relay, default_config }
+            Case { flavor, wt_is_server, variant, items, datagrams, close_capsule, code, reason, relay, default_config, ending }
         })
 }
 
@@ -79,6 +86,8 @@ struct Shared {
     datagrams: usize,
     closes: Vec<String>,
     errors: Vec<String>,
+    /// tasks of the application that hold accepted streams
+    handlers: Vec<tokio::task::AbortHandle>,
 }
 
 /// The application: keeps accepting, reads every delivered stream in its own task, except
@@ -86,7 +95,8 @@ struct Shared {
 fn spawn_app(conn: Connection, shared: Arc<Mutex<Shared>>) -> Vec<tokio::task::JoinHandle<()>> {
     let mut v = Vec::new();
     fn handle(mut r: wtransport::RecvStream, s: Option<wtransport::SendStream>, sh: Arc<Mutex<Shared>>) {
-        tokio::spawn(async move {
+        let sh2 = sh.clone();
+        let task = tokio::spawn(async move {
             let _keep = s;
             let mut first = [0u8; 1];
             match r.read(&mut first).await {
@@ -112,6 +122,7 @@ fn spawn_app(conn: Connection, shared: Arc<Mutex<Shared>>) -> Vec<tokio::task::J
                 sh.lock().unwrap().healthy.insert(i, data);
             }
         });
+        sh2.lock().unwrap().handlers.push(task.abort_handle());
     }
     let c = conn.clone();
     let sh = shared.clone();
@@ -165,7 +176,9 @@ async fn exec_async(case: Arc<Case>) -> CaseResult {
     let mut held: Vec<Box<dyn std::any::Any + Send>> = Vec::new();
     let mut window_filled = false;
     let expect_close;
-    let app_conn: Connection;
+    let mut app_conn_opt: Option<Connection>;
+    let mut ended_locally = false;
+    let mut dropped_all = false;
     let _keep: Box<dyn std::any::Any + Send>;
     if case.variant % 2 == 1 {
         // public API only: the sender is a wtransport endpoint holding un-awaited opening futures
@@ -174,7 +187,7 @@ async fn exec_async(case: Arc<Case>) -> CaseResult {
             Err(e) => return CaseResult::Skip(e),
         };
         let (sender, receiver) = if case.wt_is_server { (p.client.clone(), p.server.clone()) } else { (p.server.clone(), p.client.clone()) };
-        app_conn = receiver.clone();
+        app_conn_opt = Some(receiver.clone());
         let _tasks = spawn_app(receiver, shared.clone());
         for (k, it) in case.items.iter().enumerate() {
             if it.stalled {
@@ -286,7 +299,7 @@ async fn exec_async(case: Arc<Case>) -> CaseResult {
                 Err(e) => return CaseResult::Skip(e),
             }
         };
-        app_conn = conn.clone();
+        app_conn_opt = Some(conn.clone());
         let _tasks = spawn_app(conn, shared.clone());
         // the raw peer plays the script in order
         for (k, it) in case.items.iter().enumerate() {
@@ -303,10 +316,19 @@ async fn exec_async(case: Arc<Case>) -> CaseResult {
                 }
             };
             if it.stalled {
-                let bytes: Vec<u8> = match it.pos % 4 {
+                let grease = refcodec::enc_frame(refcodec::grease(k as u64 + 1), b"grease");
+                let bytes: Vec<u8> = match it.pos % 6 {
                     0 => vec![],
                     1 => preamble[..1.max(preamble.len() / 2)].to_vec(),
                     2 => preamble.clone(),
+                    4 if it.bidi => grease,
+                    5 if it.bidi => {
+                        let mut b = grease;
+                        b.push(preamble[0]);
+                        b
+                    }
+                    // uni: the complete stream type, the session id still missing
+                    4 | 5 => preamble[..2].to_vec(),
                     _ => {
                         let mut b = preamble.clone();
                         b.push(b'U');
@@ -317,7 +339,7 @@ async fn exec_async(case: Arc<Case>) -> CaseResult {
                 if !bytes.is_empty() {
                     let _ = s.write_all(&bytes).await;
                 }
-                if it.pos % 4 == 3 && k % 2 == 0 {
+                if it.pos % 6 == 3 && k % 2 == 0 {
                     // "unread data up to the flow-control window": keep writing until the stream's
                     // window (1.25 MB by default) is exhausted; the application never reads it
                     let progress = Arc::new(std::sync::atomic::AtomicUsize::new(0));
@@ -381,7 +403,38 @@ async fn exec_async(case: Arc<Case>) -> CaseResult {
         }
         // through a lossy relay a CONNECTION_CLOSE packet may simply be lost (it is not
         // retransmitted); the capsule travels on a reliable stream
-        if case.close_capsule || (case.wt_is_server && case.relay % 3 != 0) {
+        let via_relay = case.wt_is_server && case.relay % 3 != 0;
+        if !via_relay && case.ending % 3 == 1 {
+            // the application closes the session itself
+            app_conn_opt.as_ref().expect("connection").close(wtransport::VarInt::from_u32(case.code), case.reason.as_bytes());
+            match tokio::time::timeout(Duration::from_secs(5), raw_conn.closed()).await {
+                Ok(e) => {
+                    let want = CloseSeen::Application(case.code as u64, case.reason.as_bytes().to_vec());
+                    if close_seen(&e) != want {
+                        return viol("C07:local-close-value", format!("the application closed with ({}, {:?}) in the presence of stalled streams, the peer saw {:?}", case.code, case.reason, close_seen(&e)));
+                    }
+                }
+                Err(_) => return CaseResult::Timeout("Connection::close was called (stalled streams present) but the peer never saw the connection close".into()),
+            }
+            ended_locally = true;
+        } else if !via_relay && case.ending % 3 == 2 {
+            // the application lets go of everything: accept loops, accepted streams, handles
+            for t in &_tasks {
+                t.abort();
+            }
+            for h in shared.lock().unwrap().handlers.drain(..) {
+                h.abort();
+            }
+            for t in _tasks {
+                let _ = t.await;
+            }
+            drop(app_conn_opt.take());
+            match tokio::time::timeout(Duration::from_secs(5), raw_conn.closed()).await {
+                Ok(_) => {}
+                Err(_) => return CaseResult::Timeout("the application dropped every handle and stream (stalled streams present) but the peer never saw the connection close".into()),
+            }
+            dropped_all = true;
+        } else if case.close_capsule || via_relay {
             let cap = refcodec::enc_frame(refcodec::registry::FRAME_DATA, &refcodec::enc_close_capsule(case.code, case.reason.as_bytes()));
             if let Err(e) = req_send.write_all(&cap).await {
                 return CaseResult::Skip(format!("capsule write: {e}"));
@@ -390,7 +443,7 @@ async fn exec_async(case: Arc<Case>) -> CaseResult {
         } else {
             raw_conn.close(vi(case.code as u64), case.reason.as_bytes());
         }
-        expect_close = format!("ApplicationClosed({},{})", case.code, vcore::hex(case.reason.as_bytes()));
+        expect_close = if ended_locally { "LocallyClosed".to_string() } else { format!("ApplicationClosed({},{})", case.code, vcore::hex(case.reason.as_bytes())) };
         held.push(Box::new(req_send));
         _keep = keep;
     }
@@ -398,6 +451,10 @@ async fn exec_async(case: Arc<Case>) -> CaseResult {
     // back off exponentially: allow more time there)
     let deadline = tokio::time::Instant::now() + Duration::from_secs(if case.relay % 3 != 0 { 12 } else { 5 });
     loop {
+        if dropped_all {
+            // nobody is left to observe a termination value
+            break;
+        }
         {
             let g = shared.lock().unwrap();
             if g.closes.len() >= 3 {
@@ -416,7 +473,7 @@ async fn exec_async(case: Arc<Case>) -> CaseResult {
         }
         tokio::time::sleep(Duration::from_millis(2)).await;
     }
-    drop(app_conn);
+    drop(app_conn_opt);
     drop(held);
     // non-trivial: a stalled stream opened before a healthy one of the same kind
     let mut nt = false;
@@ -427,16 +484,24 @@ async fn exec_async(case: Arc<Case>) -> CaseResult {
     }
     let mut labels = vec![];
     for it in case.items.iter().filter(|i| i.stalled) {
-        labels.push(match (case.variant % 2, it.pos % 4) {
+        labels.push(match (case.variant % 2, it.pos % 6) {
             (1, _) => "stall:unawaited-opening",
             (_, 0) => "stall:no-byte",
             (_, 1) => "stall:partial-preamble",
             (_, 2) => "stall:complete-preamble",
-            _ => "stall:unread-data",
+            (_, 3) => "stall:unread-data",
+            (_, 4) | (_, 5) if it.bidi => "stall:after-grease-frame",
+            _ => "stall:type-without-session-id",
         });
     }
     if case.variant % 2 == 0 && case.wt_is_server && case.relay % 3 != 0 {
         labels.push(if case.relay % 3 == 1 { "relay:loss" } else { "relay:reorder" });
+    }
+    if ended_locally {
+        labels.push("ending:local-close");
+    }
+    if dropped_all {
+        labels.push("ending:handles-dropped");
     }
     if window_filled {
         labels.push("stall:unread-data-window-full");
@@ -494,7 +559,7 @@ pub fn signature_of(case: &Case) -> String {
         .items
         .iter()
         .filter(|i| i.stalled)
-        .map(|i| format!("{}{}", if i.bidi { "bidi" } else { "uni" }, if case.variant % 2 == 1 { 9 } else { i.pos % 4 }))
+        .map(|i| format!("{}{}", if i.bidi { "bidi" } else { "uni" }, if case.variant % 2 == 1 { 9 } else { i.pos % 6 }))
         .collect();
     kinds.sort();
     kinds.dedup();
@@ -511,7 +576,7 @@ pub fn run(run: &Run) {
         |c| judge(|| exec(c), true, "C07:blocked"),
         |c| serde_json::to_value(c).unwrap(),
     );
-    for l in ["stall:no-byte", "stall:partial-preamble", "stall:complete-preamble", "stall:unread-data", "stall:unawaited-opening", "stall:unread-data-window-full", "window-full+default-config", "relay:loss", "relay:reorder"] {
+    for l in ["stall:no-byte", "stall:partial-preamble", "stall:complete-preamble", "stall:unread-data", "stall:unawaited-opening", "stall:unread-data-window-full", "window-full+default-config", "relay:loss", "relay:reorder", "stall:after-grease-frame", "stall:type-without-session-id", "ending:local-close", "ending:handles-dropped"] {
         run.essential(l);
     }
 }
